@@ -93,6 +93,11 @@ pub struct Case {
     /// position of this node's quote among the three
     pub own_pos: u8,
     pub seed: u8,
+    /// scratchpads and transactions only: the node holds, under the SAME record key (an owner's
+    /// scratchpad and transaction set share one), a record of the other kind — not "a mutable record
+    /// the node already holds" of the uploaded kind
+    #[serde(default)]
+    pub prior_other_kind: bool,
 }
 
 impl Case {
@@ -120,8 +125,8 @@ pub fn case_strategy() -> BoxedStrategy<Case> {
         6 => (0u8..6).prop_map(|i| 1u8 << i),
         2 => 1u8..64,
     ];
-    (kind, prop_oneof![5 => Just(true), 1 => Just(false)], prop_oneof![3 => Just(0u8), 1 => 1u8..3], prop_oneof![Just(0u8), Just(4), Just(19), Just(28)], mask, s, k, e, o, 0u8..3, any::<u8>())
-        .prop_map(|(kind, paid, prior, rt_peers, mask, s, k, e, o, own_pos, seed)| Case {
+    (kind, prop_oneof![5 => Just(true), 1 => Just(false)], prop_oneof![3 => Just(0u8), 1 => 1u8..3], prop_oneof![Just(0u8), Just(4), Just(19), Just(28)], mask, s, k, e, o, 0u8..3, (any::<u8>(), prop_oneof![5 => Just(false), 1 => Just(true)]))
+        .prop_map(|(kind, paid, prior, rt_peers, mask, s, k, e, o, own_pos, (seed, prior_other_kind))| Case {
             kind,
             paid,
             prior,
@@ -135,6 +140,7 @@ pub fn case_strategy() -> BoxedStrategy<Case> {
             a: mask & 32 == 0,
             own_pos,
             seed,
+            prior_other_kind: prior_other_kind && !paid && matches!(kind, Kind::Pad | Kind::Tx),
         })
         .boxed()
 }
@@ -372,7 +378,19 @@ pub fn check(case: &Case, ctx: &mut Ctx) {
     let mut cl = Cluster::new(&[1], None);
     let pl = payload(case.kind, case.seed);
     // prior content
-    if case.prior > 0 {
+    let mut other_kind_held = false;
+    if case.prior_other_kind && matches!(case.kind, Kind::Pad | Kind::Tx) {
+        let s = case.seed as u64;
+        let (owner, rec) = match case.kind {
+            Kind::Pad => (10 + s % 5, fix::transactions_record(pl.key.clone(), &vec![fix::transaction(10 + s % 5, 1, true)])),
+            _ => (20 + s % 5, fix::record(pl.key.clone(), fix::scratchpad_record(&fix::scratchpad(20 + s % 5, 1, fix::pseudo_bytes(s, 30), 3, fix::Sig::Valid)).value)),
+        };
+        if fix::transaction_key(owner) == pl.key && fix::scratchpad_key(owner) == pl.key {
+            cl.seed_record(0, rec);
+            other_kind_held = true;
+            ctx.label("holds_a_record_of_another_kind_under_the_uploaded_key");
+        }
+    } else if case.prior > 0 {
         cl.seed_record(0, pl.prior.clone().expect("prior"));
     }
     // an unrelated record that must never change
@@ -440,6 +458,9 @@ pub fn check(case: &Case, ctx: &mut Ctx) {
         }
         if matches!(case.kind, Kind::Chunk | Kind::Tx) && after != before {
             ctx.fail("unpaid_immutable_upload_changed_store", format!("{:?}", case.kind));
+        }
+        if other_kind_held && after != before {
+            ctx.fail("unpaid_upload_replaced_a_held_record_of_another_kind", format!("{:?} without payment; the node held a record of another kind of the same owner under that key, result {res:?}", case.kind));
         }
         return;
     }
@@ -542,7 +563,7 @@ pub fn check_sequence(case: &SeqCase, ctx: &mut Ctx) {
     // this node's quote has been confirmed by the contract in an earlier step
     let mut confirmed_before = false;
     for (i, st) in case.steps.iter().enumerate() {
-        let pc = Case { kind: case.kind, paid: true, prior: 0, rt_peers: 4, s: SFault::Ok, p: true, k: KFault::Ok, e: EFault::Ok, o: [true; 3], rpc: Rpc::Ok, a: true, own_pos: 0, seed: case.seed.wrapping_add(i as u8 * 7) };
+        let pc = Case { kind: case.kind, paid: true, prior: 0, rt_peers: 4, s: SFault::Ok, p: true, k: KFault::Ok, e: EFault::Ok, o: [true; 3], rpc: Rpc::Ok, a: true, own_pos: 0, seed: case.seed.wrapping_add(i as u8 * 7), prior_other_kind: false };
         let (mut proof, _h, _k) = build_proof(&pc, &mut cl, &pl);
         let own_pos = proof.peer_quotes.iter().position(|(p, _)| p.to_peer_id().ok() == Some(me));
         let Some(own_pos) = own_pos else {
